@@ -116,3 +116,27 @@ Definition get_uint64 (kf : keyfile) (g k : option str) : econf_err + Z :=
 (* the integer setters: the caller passes a value of the C type, so the
    model takes it already reduced to that type's range *)
 Definition set_int_text (z : Z) : setres := SetTo (fmt_dec z).
+
+(* ---------- floating point: only "does strtof/strtod convert anything" ----------
+   glibc: optional blanks, optional sign, then a decimal or hexadecimal number
+   (at least one digit, possibly after a '.'), or inf/infinity/nan in any case. *)
+Definition strtod_converts (s : str) : bool :=
+  let s1 := drop_while isspace s in
+  let s2 := match s1 with
+            | 45%N :: r => r
+            | 43%N :: r => r
+            | _ => s1
+            end in
+  match s2 with
+  | c :: r =>
+      if isdigit c then true
+      else if (c =? 46)%N then match r with d :: _ => isdigit d | [] => false end
+      else is_prefix (bs "inf") (lower (firstn 3 s2)) || is_prefix (bs "nan") (lower (firstn 3 s2))
+  | [] => false
+  end.
+
+Definition get_float_text (v : option str) : econf_err + str :=
+  match v with
+  | None => inl ECONF_KEY_HAS_NULL_VALUE
+  | Some s => if strtod_converts s then inr s else inl ECONF_VALUE_CONVERSION_ERROR
+  end.
